@@ -181,7 +181,20 @@ class _Gen:
             ("for", 0 if deep else 2.5 * o["loops"]),
             ("break", 1.5 * o["jumpy"] if inloop else 0), ("continue", 1 * o["jumpy"] if inloop else 0),
             ("return", 0.8 * (o["jumpy"] if inloop else 1)),
+            ("jumpchain", 0.35 * o["jumpy"] if (inloop and not deep and o.get("empty_arms_ok", True)) else 0),
         ])
+        if kind == "jumpchain":
+            # an if whose body ends in a nested bare `if c: break`, followed by a bare
+            # jump: the empty end-if blocks and the jump arms compete for one successor
+            # (seeded change C07-17)
+            j1 = r.choice(["break", "continue"])
+            j2 = r.choice(["break", "continue"])
+            self.emit(ind, "if %s:" % self.test())
+            self.emit(ind + 1, r.choice(["x += 1", "y = E(%d)" % self.sid(), "E(%d)" % self.sid()]))
+            self.emit(ind + 1, "if %s:" % self.test())
+            self.emit(ind + 2, j1)
+            self.emit(ind, j2)
+            return True
         if kind == "store":
             # assignment / augmented assignment to an attribute or item of the
             # simulated object: the store is an interaction, so the order of
@@ -358,13 +371,20 @@ def gen_multi_exit(rng, opts):
                 elif jump == "none":
                     g.emit(ind + 2, "y = %d" % r.randint(2, 9))
                 else:
-                    if g.lines[-1].strip().endswith(":"):
+                    if g.lines[-1].strip().endswith(":") and not r.fork("bare%d" % len(g.lines)).chance(0.5):
                         g.emit(ind + 2, "E(%d)" % g.sid())
+                    # (else: a bare `if c: break` -- an arm that does nothing but jump;
+                    # legal since the pruning repair 3526765, and with a bare jump at the
+                    # end of the body several empty blocks compete for the same successor:
+                    # seeded change C07-17)
                     g.emit(ind + 2, jump)
             if r.chance(0.2):
                 g.emit(ind + 1, "else:")
                 g.emit(ind + 2, "z = E(%d)" % g.sid())
-        if r.chance(0.4):
+        tail = r.fork("tail%d" % len(g.lines)).weighted([("asis", 6), ("break", 2), ("continue", 1)])
+        if tail != "asis":
+            g.emit(ind + 1, tail)
+        elif r.chance(0.4):
             g.emit(ind + 1, "return (x, y, %d)" % r.randint(100, 103))
         else:
             g.emit(ind + 1, "y += E(%d)" % g.sid())
